@@ -76,6 +76,16 @@ Theorem C33_acyclic_reject_iff_stuck : forall reg rank n,
 Proof. exact resolve_acyclic_reject_iff. Qed.
 Print Assumptions C33_acyclic_reject_iff_stuck.
 
+(* ---- registries filled in dependency order (the protocol's rule: only constants registered before
+        may be mentioned, hashes are fresh) are acyclic, and the budget resolve_top runs with
+        (one unit per registered entry) is then enough *)
+Theorem C33_dependency_order_acyclic : forall reg,
+  ordered reg -> ranked reg (fun h => pos_rank h reg) /\ forall n, resolve_top reg n <> RFuel.
+Proof.
+  intros reg HO. split; [exact (ordered_ranked reg HO)|intro n; exact (resolve_top_ordered reg n HO)].
+Qed.
+Print Assumptions C33_dependency_order_acyclic.
+
 (* ---- registration binds an expression under the hash of its binary encoding (the C05 encoder),
         leaves other hashes alone, and in every registry produced by a history of register / resolve
         / reset calls each hash is bound to an expression with that hash *)
@@ -114,6 +124,12 @@ Proof.
   - injection L as <-. apply bytes_eqb_spec in E2. subst h.
     cbn in Hin. destruct Hin as [<-|[<-|[]]]; vm_compute; auto.
   - destruct (bytes_eqb k1 h) eqn:E1; [|discriminate]. injection L as <-. destruct Hin.
+Qed.
+
+Example C33_example_ordered : ordered ex_reg.
+Proof.
+  cbn. repeat split; try exact I; intros h Hin; cbn in Hin;
+    repeat (destruct Hin as [<-|Hin]; [vm_compute; discriminate|]); destruct Hin.
 Qed.
 
 Example C33_example_resolve :
